@@ -408,3 +408,17 @@ def numeric_sweep(prop="C05"):
                 cs.append(Case("I " + hx(sq + b"@@"), sweep="numeric-boundaries", oracle=(prop == "C20"), cfgs=["C20"] if prop == "C20" else None,
                                tag="numeric-boundary"))
     return cs
+
+
+def repetition_cases(rng, tier, cfg_fn):
+    """one item repeated 85, 86, 171, 256, 257 (thorough: 1000) times on the same terminal, then other items: behaviour
+    that only differs on the N-th repetition (a wrapping counter, a filling table)"""
+    cs = []
+    kinds = [("m", "7", 0, 10, 20), ("m", "8", 3, 0, 222), ("k", "7", 0, 5, 1), ("p", "7", 6, None), ("s", "7", 8), ("e", "crlf"),
+             ("c", 0x61), ("q", "7", "q", [25], 0x68), ("k", "m", 3, None, None)]
+    for it in kinds:
+        for n in ((85, 86, 171, 256, 257) + ((1000,) if tier == "thorough" else ())):
+            items = [it] * n + [("m", "7", 1, 3, 4), ("c", 0x78), ("k", "7", 1, None, None)]
+            data = b"".join(item_bytes(i) for i in items)
+            cs.append(Case("I " + hx(data), sweep="n-fold-repetition", cfgs=[cfg_fn(items)], tag="n-fold-repetition"))
+    return cs
